@@ -115,8 +115,51 @@ def run(ctx, n):
     ctx.run_hypothesis(sc.shard_cases(max_grid=max_grid), check, n)
 
 
+# ---------------------------------------------------------------------------
+# sparse subsets of huge grids: identifiers of 50..63 bits
+# ---------------------------------------------------------------------------
+def huge_cases():
+    from hypothesis import strategies as st
+
+    @st.composite
+    def strat(draw):
+        bits = draw(st.sampled_from([[18, 18, 18], [21, 21, 21], [21, 10, 5],
+                                     [17, 18, 19], [20, 20, 13]]))
+        grid = [2 ** b for b in bits]
+        total = sum(bits)
+        pre = draw(st.integers(0, 2))
+        mini = draw(st.integers(0, 3))
+        gap = draw(st.integers(0, 2))
+        shard = max(0, total - pre - mini - gap)
+        npos = draw(st.integers(1, 5))
+        order = []
+        for _ in range(npos):
+            pos = [draw(st.one_of(st.sampled_from([g - 1, g - 2, g // 2 + 1]),
+                                  st.integers(0, g - 1))) for g in grid]
+            if pos not in order:
+                order.append(pos)
+        return {"grid": grid, "cs": 1, "rem": [0, 0, 0],
+                "bits": [mini, shard, pre],
+                "index_enc": draw(st.sampled_from(["raw", "gzip"])),
+                "data_enc": draw(st.sampled_from(["raw", "gzip"])),
+                "order": order,
+                "strategy": draw(st.sampled_from(["on disk", "in memory"])),
+                "seed": draw(st.integers(0, 2 ** 16))}
+    return strat()
+
+
+def run_huge(ctx, n):
+    def check(ctx, case):
+        check_case(ctx, case)
+        top = max(sc.chunk_id(tuple(p), case["grid"]) for p in case["order"])
+        ctx.record(case, top >= 2 ** 53, ["id_bits%d" % (top.bit_length()
+                                                          // 8 * 8)])
+    ctx.run_hypothesis(huge_cases(), check, n)
+
+
 def replay(ctx, case):
     check_case(ctx, case)
 
 
-SUBS = [Sub("write_spec_read", run, replay, quick=3000, thorough=60000)]
+SUBS = [Sub("write_spec_read", run, replay, quick=3000, thorough=60000),
+        Sub("huge_ids", run_huge, replay, quick=400, thorough=8000)]
